@@ -70,7 +70,10 @@ def out_of_documented_range(op, args):
 
 # ---------------------------------------------------------------------------------------------- constructors
 STRINGS = ["usd", "USD", "eur", "Eur", "FOUR", "", "ab", "é1", "日", "€", "😀", "u s", "us\n", "gbp", "jpy", "a", "aé",
-           "nok", "xyz", "12é", "1", "123", "é"]
+           "nok", "xyz", "12é", "1", "123", "é",
+           # 3 bytes as GIVEN but not after lower-casing (and the reverse): U+0130 (2 bytes -> 3), U+212A KELVIN SIGN (3 -> 1),
+           # U+1E9E CAPITAL SHARP S (3 -> 2) - the stored code is the lower-cased one and IT must be 3 bytes
+           "\u0130a", "\u0130", "\u212a", "\u1e9e", "a\u212a", "\u212aaa", "\u1e9ea", "ab\u0130"]
 CALNAMES = ["", ",", "|", "tgt", "TGT", "tgt|", "|tgt", "tgt,,ldn", "tgt|ldn|fed", "tgt,ldn|fed", "bad", "tgt,bad", "ldn|bad",
             "tgt ", " tgt", "tgt\n", "日本", "TgT,LdN|NyC", "all", "bus", "fed|fed", "nyc,nyc", "stK", "é", "tgt,ldn,fed,nyc,stk,osl",
             # characters whose lower-casing changes their UTF-8 length (U+0130 2 -> 3 bytes, KELVIN SIGN U+212A 3 -> 1) on either
